@@ -99,7 +99,9 @@ Problems ==
      /\ p.np = 2 => p.size <= 2
      /\ p.size >= 3 => p.T <= 7
      \* a free real parameter: not for booleans; one pair, durations <= MaxParamT
-     /\ p.param => (LeafKind # "bool" /\ p.np = 1 /\ p.T <= MaxParamT)}
+     \* (max | min, mul) is a semiring only on non-negative values: no free real parameter there
+     /\ p.param => (LeafKind # "bool" /\ p.np = 1 /\ p.T <= MaxParamT
+                    /\ ~(Times = "mul" /\ Plus \in {"max", "min"}))}
 
 Init == g \in Problems
 Next == UNCHANGED g
